@@ -579,6 +579,98 @@ Proof.
   unfold zlen in *. lia.
 Qed.
 
+
+(* the type table comes back: item types in order, and each group's index range *)
+Lemma tt_records_app a : forall b s, tt_records (a ++ b) s = tt_records a s ++ tt_records b (s + zlen (titems a)).
+Proof.
+  induction a as [|g a IH]; intros b s; cbn [app tt_records].
+  - change (zlen (titems [])) with 0. rewrite Z.add_0_r. reflexivity.
+  - rewrite IH, zlen_titems_cons. f_equal. f_equal. f_equal. lia.
+Qed.
+
+Lemma zlen_tt_records l : forall s, zlen (tt_records l s) = zlen l.
+Proof. induction l as [|g l IH]; intros s; cbn [tt_records]; [reflexivity|]. rewrite !zlen_cons, IH. reflexivity. Qed.
+
+Lemma znth_tt_records before g after :
+  znth (tt_records (before ++ g :: after) 0) (zlen before)
+  = Some {| t_type_id := fst g; t_start := zlen (titems before); t_num := zlen (snd g) |}.
+Proof.
+  rewrite tt_records_app. cbn [tt_records]. rewrite <- (zlen_tt_records before 0). rewrite Z.add_0_l. apply znth_app_r.
+Qed.
+
+Lemma item_types_rt_aux : forall suf before fuel, gs = before ++ suf -> (length suf < fuel)%nat ->
+  collect_range fuel (item_type rt_reader) (zlen before) (zlen gs) = Ok (map fst suf).
+Proof.
+  induction suf as [|g suf IH]; intros before fuel Hgs' Hfuel.
+  - rewrite app_nil_r in Hgs'. rewrite Hgs'. destruct fuel; [lia|]. cbn [collect_range]. rewrite Z.leb_refl. reflexivity.
+  - destruct fuel as [|fuel]; [cbn in Hfuel; lia|]. cbn [collect_range].
+    pose proof (zlen_nonneg before) as Hb. pose proof (zlen_nonneg suf) as Hsf.
+    assert (Hl : zlen gs = zlen before + 1 + zlen suf) by (rewrite Hgs', zlen_app, zlen_cons; lia).
+    destruct (zlen gs <=? zlen before) eqn:E0; [apply Z.leb_le in E0; lia|].
+    assert (Hit : item_type rt_reader (zlen before) = Ok (fst g)).
+    { unfold item_type. cbn [rt_reader r_item_types]. rewrite Hgs'.
+      rewrite (index_of_znth _ _ _ _ Hb (znth_tt_records before g suf)). cbn [bind t_type_id].
+      apply assert_u16_ok. pose proof gs_tids as Hgt. rewrite Hgs' in Hgt. apply Forall_app in Hgt.
+      destruct Hgt as [_ Hgt]. inversion Hgt; assumption. }
+    rewrite Hit. cbn [bind].
+    specialize (IH (before ++ [g]) fuel). rewrite zlen_app, zlen_cons, zlen_nil in IH.
+    replace (zlen before + (1 + 0)) with (zlen before + 1) in IH by lia.
+    rewrite IH; [reflexivity|rewrite <- app_assoc; exact Hgs'|cbn [length] in Hfuel; lia].
+Qed.
+
+Lemma item_types_rt : item_types rt_reader = Ok (map fst gs).
+Proof.
+  destruct rt_bounds as (B1 & B2 & B3 & B4 & B5 & B6).
+  unfold item_types, num_item_types. cbn [rt_reader r_hdr rt_hdr h_num_item_types]. fold rt_hdr. fold rt_reader.
+  rewrite assert_usize_ok by lia. cbn [bind].
+  apply (item_types_rt_aux gs [] _ eq_refl).
+  cbn [rt_reader r_item_types]. pose proof (zlen_tt_records gs 0) as Hl. unfold zlen in Hl. lia.
+Qed.
+
+Lemma ascending_lt pv l : ascending pv l = true -> Forall (fun x => pv < x) l.
+Proof.
+  revert pv. induction l as [|x l IH]; intros pv H; [constructor|]. cbn [ascending] in H.
+  apply andb_true_iff in H. destruct H as [H1 H2]. apply Z.ltb_lt in H1.
+  constructor; [exact H1|]. eapply Forall_impl; [|apply (IH x H2)]. cbn. intros; lia.
+Qed.
+
+Lemma ascending_split pv l1 x l2 : ascending pv (l1 ++ x :: l2) = true -> Forall (fun y => y < x) l1.
+Proof.
+  revert pv. induction l1 as [|y l1 IH]; intros pv H; [constructor|]. cbn [app ascending] in H.
+  apply andb_true_iff in H. destruct H as [H1 H2].
+  constructor; [|apply (IH y H2)].
+  pose proof (ascending_lt y _ H2) as Hall. apply Forall_app in Hall. destruct Hall as [_ Hall]. inversion Hall; assumption.
+Qed.
+
+Lemma item_type_indices_loop_skip l : forall s ty rest, Forall (fun g : dgroup => 0 <= fst g < 65536 /\ fst g <> ty) l ->
+  item_type_indices_loop (tt_records l s ++ rest) ty = item_type_indices_loop rest ty.
+Proof.
+  induction l as [|g l IH]; intros s ty rest Hl; [reflexivity|]. inversion Hl as [|? ? [Hg Hne] Hl']; subst.
+  cbn [tt_records app item_type_indices_loop t_type_id]. rewrite (Z.mod_small (fst g)) by lia.
+  destruct (fst g =? ty) eqn:E; [apply Z.eqb_eq in E; contradiction|]. apply IH. exact Hl'.
+Qed.
+
+Lemma item_type_indices_rt before g after : gs = before ++ g :: after ->
+  item_type_indices rt_reader (fst g) = Ok (zlen (titems before), zlen (titems before) + zlen (snd g)).
+Proof.
+  intros Hgs'. destruct rt_bounds as (B1 & B2 & B3 & B4 & B5 & B6). destruct rt_small as (S1 & S2 & S3 & S4 & S5).
+  unfold item_type_indices. cbn [rt_reader r_item_types]. rewrite Hgs', tt_records_app.
+  assert (Hg : 0 <= fst g < 65536).
+  { pose proof gs_tids as Hgt. rewrite Hgs' in Hgt. apply Forall_app in Hgt. destruct Hgt as [_ Hgt]. inversion Hgt; assumption. }
+  rewrite item_type_indices_loop_skip.
+  - cbn [tt_records item_type_indices_loop t_type_id t_start t_num]. rewrite (Z.mod_small (fst g)) by lia.
+    rewrite Z.eqb_refl. rewrite Z.add_0_l.
+    pose proof (zlen_nonneg (titems before)). pose proof (zlen_nonneg (snd g)).
+    assert (HlT : zlen T = zlen (titems before) + zlen (snd g) + zlen (titems after)).
+    { unfold T. rewrite Hgs', titems_app, zlen_app, zlen_titems_cons. lia. }
+    pose proof (zlen_nonneg (titems after)).
+    rewrite !assert_usize_ok by lia. cbn [bind]. rewrite usize_add_ok by (unfold two64; lia). reflexivity.
+  - pose proof Hasc as Ha. rewrite Hgs', map_app in Ha. cbn [map] in Ha. apply ascending_split in Ha.
+    pose proof gs_tids as Hgt. rewrite Hgs' in Hgt. apply Forall_app in Hgt. destruct Hgt as [Hgt _].
+    apply Forall_forall. intros b Hb. rewrite Forall_forall in Hgt, Ha. split; [apply Hgt; exact Hb|].
+    specialize (Ha (fst b) (in_map fst _ _ Hb)). lia.
+Qed.
+
 Lemma zlen_flat_fst l : zlen (flat_map fst l) = sum_z (bl l).
 Proof.
   induction l as [|s l IH]; [reflexivity|]. cbn [flat_map]. unfold bl in *. cbn [map].
@@ -639,7 +731,10 @@ Theorem wellformed_roundtrip compress uncompress ver crude gs datas :
     /\ r_version r = (if ver =? 3 then V3 else if crude && negb (zlen datas =? 0) then V4Crude else V4)
     /\ (exists vs, items r = Ok vs /\ map view_triple vs = titems gs /\ Forall (view_inside r) vs)
     /\ num_data r = Ok (zlen datas)
-    /\ (forall pre d post, datas = pre ++ d :: post -> read_data uncompress r (zlen pre) = Ok d).
+    /\ (forall pre d post, datas = pre ++ d :: post -> read_data uncompress r (zlen pre) = Ok d)
+    /\ item_types r = Ok (map fst gs)
+    /\ (forall before g after, gs = before ++ g :: after ->
+          item_type_indices r (fst g) = Ok (zlen (titems before), zlen (titems before) + zlen (snd g))).
 Proof.
   intros Hver Hwf Hunc. unfold wf_input in Hwf.
   repeat (apply andb_true_iff in Hwf; destruct Hwf as [Hwf ?]).
@@ -658,6 +753,7 @@ Proof.
   split; [apply items_rt; assumption|].
   split.
   { unfold num_data. cbn [rt_reader r_hdr rt_hdr h_num_data]. rewrite assert_usize_ok by apply zlen_nonneg. rewrite Hzs. reflexivity. }
+  split; [|split; [apply item_types_rt; assumption|intros before g after; apply item_type_indices_rt; assumption]].
   intros pre d post Hd.
   assert (HS : stored = stored_of compress ver pre ++ (if 4 <=? ver then compress d else d, zlen d) :: stored_of compress ver post).
   { unfold stored, stored_of. rewrite Hd, map_app. reflexivity. }
